@@ -136,7 +136,11 @@ static void mk_dlat(void)
 static const char *strs[] = {"0", "1", "-1", "42", " 42", "\t\n 42", "+42", "42abc", "abc", "", " ", "-", "+", "2147483647", "2147483648", "-2147483648", "-2147483649",
                              "9223372036854775807", "9223372036854775808", "-9223372036854775808", "-9223372036854775809", "18446744073709551615",
                              "18446744073709551616", "99999999999999999999999999", "-99999999999999999999999999", "1.5", "1e3", "-0", "0x10", "1e400", "-1e400",
-                             "1e-400", "Infinity", "NaN", "  12  ", "12 ", "007", "1,5", ".5", "5.", "1e", "--1", "4294967296"};
+                             "1e-400", "Infinity", "NaN", "  12  ", "12 ", "007", "1,5", ".5", "5.", "1e", "--1", "4294967296",
+                             /* subnormal and boundary doubles spelled as text (strtod reports ERANGE for inexact tiny results, yet the value exists) */
+                             "1e-310", "-1e-310", "3e-320", "4.9406564584124654e-324", "-4.9406564584124654e-324", "2.2250738585072009e-308",
+                             "2.2250738585072014e-308", "1.7976931348623157e308", "-1.7976931348623157e308", "1.7976931348623159e308", "2.4703282292062327e-324",
+                             "1e-5", "0.1", "123456789.125", "-0.0", "1E2", "1e+2", " 1.5", "1.5 ", "1.5x", "inf", "-inf", "nan", "0x1p-1074", "1e-323"};
 
 static void int_inc(json_object *o, int64_t inc, int neg, uint64_t mag, const char *store)
 {
@@ -209,7 +213,23 @@ static int drive(int start, int nexec)
 			const char *s = strs[(x * 6 + k) % (sizeof strs / sizeof *strs)];
 			if (vh_below(3) == 0)
 			{
-				snprintf(tmp, sizeof tmp, "%s%llu", vh_below(2) ? "-" : "", (unsigned long long)(vh_rand() >> vh_below(64)));
+				if (vh_below(3))
+					snprintf(tmp, sizeof tmp, "%s%llu", vh_below(2) ? "-" : "", (unsigned long long)(vh_rand() >> vh_below(64)));
+				else
+				{
+					/* a random double bit pattern (all exponents incl. subnormals) printed as text */
+					uint64_t b = vh_rand();
+					if (vh_below(3) == 0)
+						b &= 0x800fffffffffffffull; /* subnormal */
+					double d;
+					memcpy(&d, &b, 8);
+					if (d != d || d - d != 0)
+						d = 1.5;
+					if (vh_below(2))
+						snprintf(tmp, sizeof tmp, "%.17g", d);
+					else
+						snprintf(tmp, sizeof tmp, "%.*e", (int)vh_below(18), d);
+				}
 				s = tmp;
 			}
 			json_object *o = json_object_new_string(s);
